@@ -71,6 +71,7 @@ type verifContainer struct {
 	cpusCalls int
 	mems      string
 	memsCalls int
+	memsEpoch int // request number of the last SetCpusetMems call
 	shares    int64
 	sharesSet bool
 }
@@ -124,6 +125,7 @@ func (c *verifContainer) SetCpusetCpus(v string) {
 }
 func (c *verifContainer) SetCpusetMems(v string) {
 	c.memsCalls++
+	c.memsEpoch = verifEpoch
 	if v == "" {
 		// an empty cpuset.mems in an NRI adjustment/update means "leave as is"
 		return
@@ -170,6 +172,9 @@ func verifSortedKeys(m map[string]*verifContainer) []string {
 	return ks
 }
 
+// verifEpoch numbers the requests of a history (for "delivered in the same request").
+var verifEpoch int
+
 // ---- fake machines
 
 // verifMachine returns machine k and its number of CPUs.
@@ -178,7 +183,11 @@ func verifSortedKeys(m map[string]*verifContainer) []string {
 //	1: 2 sockets x 2 cores x 2 threads, 1 NUMA node each (8 CPUs): pools root + 2 sockets
 //	2: 2 sockets x 2 NUMA nodes x 1 core x 2 threads (8 CPUs): pools root + 2 sockets + 4 NUMA
 //	3: machine 0 plus a CPU-less PMEM node whose closest DRAM node is NUMA node 0
-func verifMachine(k int) (system.System, []*libmem.Node, int) {
+func verifMachine(k int) (system.System, []*libmem.Node, int) { return verifMachineMem(k, nil) }
+
+// verifMachineMem is verifMachine with the given memory capacity per NUMA
+// node (nil: 64 GiB each).
+func verifMachineMem(k int, caps []int64) (system.System, []*libmem.Node, int) {
 	var cpus []system.VerifCPU
 	var nodes []system.VerifNode
 	P := system.PerformanceCore
@@ -232,7 +241,11 @@ func verifMachine(k int) (system.System, []*libmem.Node, int) {
 	sys := system.VerifNewSystem(cpus, nodes)
 	var mnodes []*libmem.Node
 	for _, n := range nodes {
-		mn, err := libmem.NewNode(n.ID, libmem.TypeForSysfs(n.MemType), int64(64)<<30, true, sys.Node(n.ID).CPUSet(), n.Distance)
+		capacity := int64(64) << 30
+		if caps != nil {
+			capacity = caps[n.ID]
+		}
+		mn, err := libmem.NewNode(n.ID, libmem.TypeForSysfs(n.MemType), capacity, true, sys.Node(n.ID).CPUSet(), n.Distance)
 		if err != nil {
 			panic(err)
 		}
@@ -255,7 +268,11 @@ type verifWorld struct {
 // checkConstraints, and those whose reserved cpuset is kernel-isolated, are
 // excluded by assumption.
 func verifNewPolicy(machine int, allowed, reserved, isolated cpuset.CPUSet, cfg *cfgapi.Config) *verifWorld {
-	sys, mnodes, ncpu := verifMachine(machine)
+	return verifNewPolicyMem(machine, nil, allowed, reserved, isolated, cfg)
+}
+
+func verifNewPolicyMem(machine int, caps []int64, allowed, reserved, isolated cpuset.CPUSet, cfg *cfgapi.Config) *verifWorld {
+	sys, mnodes, ncpu := verifMachineMem(machine, caps)
 	c := &verifCache{containers: map[string]*verifContainer{}}
 	p := &policy{cfg: cfg, cache: c, sys: sys}
 	p.cpuAllocator = cpuallocator.NewCPUAllocator(sys)
